@@ -140,6 +140,13 @@ def check(chk):
     proto = M.proto
     init = M.init
 
+    # [bytes map] values are [bytes]: a negative length is null (read_value), not an empty string
+    rbm = proto.func('read_bytesmap')
+    vals_ = [st for st in body_walk(rbm) if isinstance(st, ast.Assign) and isinstance(st.targets[0], ast.Subscript)]
+    from ..sem import resolve as _res04
+    okb_ = len(vals_) == 1 and src(_res04(rbm, vals_[0].value, loops=True)) == 'read_value(f)'
+    chk.judge(okb_, 'C04.prologue', rbm, 'custom payload values are read with read_value ([bytes]: negative length = null)',
+              'the values of a [bytes map] are read with %s: a null value (length -1) is not recognised - the reader swallows the rest of the frame or returns b"" for None' % [src(v_.value)[:40] for v_ in vals_])
     # ---------------- registries
     opc = {}
     for q, c in proto.classes():
